@@ -102,6 +102,14 @@ func PanicOps(f *Fn) []PCO {
 				add("type-assert", x)
 			}
 		case *ast.BinaryExpr:
+			if x.Op == token.SHL || x.Op == token.SHR {
+				// a shift by a negative count panics; only signed, non-constant counts can be negative
+				if t := f.Pkg.TypesInfo.TypeOf(x.Y); t != nil && ConstOf(f.Pkg, x.Y) == nil {
+					if b, ok := t.Underlying().(*types.Basic); ok && b.Info()&types.IsInteger != 0 && b.Info()&types.IsUnsigned == 0 {
+						add("shift", x)
+					}
+				}
+			}
 			if x.Op == token.QUO || x.Op == token.REM {
 				if t := f.Pkg.TypesInfo.TypeOf(x); t != nil {
 					if b, ok := t.Underlying().(*types.Basic); ok && b.Info()&types.IsInteger != 0 {
